@@ -1,5 +1,6 @@
 import Infretis.Model.Proto
 import Infretis.Model.Fs
+import Infretis.Model.FsRestart
 open Infretis Infretis.Proto Infretis.Fs
 
 /-!
@@ -22,6 +23,14 @@ Line protocol of the C08 driver (all tokens are naturals unless said otherwise):
   step  cfg mem disk choice              → "<mem'> | <disk'> | <effects>"
   crash cfg mem disk choice manifest k half
         → "<disk'> | out=.. out0=.. present=0/1 rows=0/1 (on the restored disk) trunc=0/1 rowwin=0/1 | <rec> | <restored mem> | <data file after the restart's clean: rows garbled torn>"
+
+  dtmp     := 0 | 1 | 2 | 3 list<nat> garbled torn        (infretis_data.txt.tmp: absent, empty, cut, complete)
+  event    := 0 list<(name cid)> | 1 choice | 2 choice k half | 3 jobs k half | 4 jobs
+              (work, step, crash inside a step, crash inside a restart, completed restart)
+  rcrash cfg disk dtmp manifest jobs k half     the restart procedure (restartRun) dies at point (k, half)
+        → "<disk'> | <dtmp'> | out=<restartRun now> next=<restartRun on the crashed disk> neffs=<number of effects> tmpok=0/1 present=0/1 rows=0/1 | <effects> | <restored mem after the NEXT restart> | <data file after the next restart: rows garbled torn> | <dtmp after the next restart>"
+  script cfg manifest alive mem disk dtmp list<event>          (runScript; mem is ignored when alive = 0)
+        → "alive=0/1 out=<restartRun now, 1 job> | <mem or -> | <disk> | <dtmp>"
 -/
 
 abbrev P (α : Type) := List String → Option (α × List String)
@@ -178,8 +187,61 @@ def b01 (b : Bool) : String := if b then "1" else "0"
 
 def squash (s : String) : String := s.replace " " ","
 
+def pDTmp : P DTmp := fun ts =>
+  match pNat ts with
+  | some (0, r) => some (.absent, r)
+  | some (1, r) => some (.empty, r)
+  | some (2, r) => some (.part, r)
+  | some (3, r) =>
+    (pPair (pList pNat) (pPair pNat pBool) r).map (fun ((rows, g, t), r') =>
+      (.complete { rows := rows, garbled := g, torn := t }, r'))
+  | _ => none
+
+def sData (df : DataFile) : String := s!"{sL toString df.rows} {df.garbled} {if df.torn then 1 else 0}"
+
+def sDTmp : DTmp → String
+  | .absent => "0" | .empty => "1" | .part => "2" | .complete df => s!"3 {sData df}"
+
+def pEvent : P Event := fun ts =>
+  match pNat ts with
+  | some (0, r) => (pList (pPair pNat pNat) r).map (fun (fs, r') => (.work fs, r'))
+  | some (1, r) => (pChoice r).map (fun (c, r') => (.step c, r'))
+  | some (2, r) => (pPair pChoice (pPair pNat pBool) r).map (fun ((c, k, h), r') => (.crash c k h, r'))
+  | some (3, r) => (pPair pNat (pPair pNat pBool) r).map (fun ((j, k, h), r') => (.restartCrash j k h, r'))
+  | some (4, r) => (pNat r).map (fun (j, r') => (.restart j, r'))
+  | _ => none
+
+def sREffect : REffect → String
+  | .dtOpen => "dtopen" | .dtWrite k => s!"dtwrite:{squash (sL toString k.rows)}" | .dtReplace => "dtreplace"
+  | .mkdirWorker i => s!"mkdirworker:{i}"
+
 def handle (toks : List String) : String :=
   match toks with
+  | "rcrash" :: rest =>
+    match pPair pCfg (pPair pDisk (pPair pDTmp (pPair pManifest (pPair pNat (pPair pNat pBool))))) rest with
+    | some ((cfg, d, t, M, jobs, k, half), []) =>
+      let x : RDisk := ⟨d, t⟩
+      let rr := restartRun cfg M x jobs
+      let x' := crashAtR rr.2 x k half
+      let rr' := restartRun cfg M x' jobs
+      let x'' := runR rr'.2 x'
+      let (restored, tmpok, present, rows) := match rr'.1 with
+        | .starts r =>
+          let mem := restore M r x''.d.files
+          (sMem mem, tmpOK x' r.active,
+           r.active.all (fun a => (loadPath M x'.d.files a).isSome) && mem.live.all (pathOK x'.d.files),
+           rowsOK x''.d.data r.active)
+        | _ => ("-", false, false, false)
+      s!"{sDisk x'.d} | {sDTmp x'.dtmp} | out={sOutcome rr.1} next={sOutcome rr'.1} neffs={rr.2.length} tmpok={b01 tmpok} present={b01 present} rows={b01 rows} | {sL sREffect rr.2} | {restored} | {sData x''.d.data} | {sDTmp x''.dtmp}"
+    | _ => "bad-op"
+  | "script" :: rest =>
+    match pPair pCfg (pPair pManifest (pPair pBool (pPair pMem (pPair pDisk (pPair pDTmp (pList pEvent)))))) rest with
+    | some ((cfg, M, alive, m, d, t, es), []) =>
+      let s0 : PState := { mem := if alive then some m else none, x := ⟨d, t⟩ }
+      let s := runScript cfg M s0 es
+      let memS := match s.mem with | some m' => sMem m' | none => "-"
+      s!"alive={b01 s.mem.isSome} out={sOutcome (s.restartNow cfg M 1)} | {memS} | {sDisk s.x.d} | {sDTmp s.x.dtmp}"
+    | _ => "bad-op"
   | "step" :: rest =>
     match pPair pCfg (pPair pMem (pPair pDisk pChoice)) rest with
     | some ((cfg, m, d, c), []) =>
